@@ -970,6 +970,51 @@ value_t report_t::fn_to_int(call_scope_t& args)
   return args.get<long>(0);
 }
 
+#if defined(LEDGER_VERIF)
+value_t report_t::fn_verif_rational(call_scope_t& args)
+{
+  // Verification hook: the exact content of a value, on one line.
+  std::ostringstream out;
+  const value_t& val(args[0]);
+  switch (val.type()) {
+  case value_t::VOID:
+    out << "V:";
+    break;
+  case value_t::BOOLEAN:
+    out << "L:" << (val.as_boolean() ? 1 : 0);
+    break;
+  case value_t::INTEGER:
+    out << "I:" << val.as_long();
+    break;
+  case value_t::AMOUNT:
+    val.as_amount().verif_rational(out);
+    break;
+  case value_t::BALANCE: {
+    std::vector<string> parts;
+    foreach (const balance_t::amounts_map::value_type& pair,
+             val.as_balance().amounts) {
+      std::ostringstream buf;
+      pair.second.verif_rational(buf);
+      parts.push_back(buf.str());
+    }
+    std::sort(parts.begin(), parts.end());
+    out << "B:";
+    bool first = true;
+    foreach (const string& part, parts) {
+      if (! first) out << ';';
+      first = false;
+      out << part;
+    }
+    break;
+  }
+  default:
+    out << "T:" << val.label();
+    break;
+  }
+  return string_value(out.str());
+}
+#endif // LEDGER_VERIF
+
 value_t report_t::fn_to_datetime(call_scope_t& args)
 {
   return args.get<datetime_t>(0);
@@ -1577,6 +1622,10 @@ expr_t::ptr_op_t report_t::lookup(const symbol_t::kind_t kind,
     case 'v':
       if (is_eq(p, "value_date"))
         return MAKE_FUNCTOR(report_t::fn_now);
+#if defined(LEDGER_VERIF)
+      else if (is_eq(p, "verif_rational"))
+        return MAKE_FUNCTOR(report_t::fn_verif_rational);
+#endif
       break;
 
     case 'w':
